@@ -33,6 +33,9 @@ pub struct WorkerStats {
     pub by_class: BTreeMap<String, u64>,
     pub samples: Vec<Value>,
     pub stopped_by_time_cap: bool,
+    /// process images (segments) this worker went through
+    #[serde(default)]
+    pub process_starts: u64,
 }
 
 impl WorkerStats {
@@ -75,6 +78,7 @@ impl WorkerStats {
             }
         }
         self.stopped_by_time_cap |= o.stopped_by_time_cap;
+        self.process_starts += o.process_starts;
     }
 }
 
@@ -96,14 +100,27 @@ pub fn worker_main(args: &[String]) -> i32 {
         },
         None => Pristine::default(),
     };
-    let t0 = Instant::now();
+    // A worker's share of the episodes is cut into *segments*, each run by a fresh process image
+    // (the worker re-executes itself): state a tree under test keeps per process - lazily filled
+    // tables, caches, started helper threads - is cold at the start of every segment. Segment
+    // lengths are a seeded mix of very short (cold starts are where initialisation races live)
+    // and long (so that effects of a long history are still reached).
+    let seg = arg_u64(args, "--seg", 0);
+    let now_unix = || std::time::SystemTime::now().duration_since(std::time::UNIX_EPOCH).map(|d| d.as_secs()).unwrap_or(0);
+    let deadline = arg_u64(args, "--deadline", now_unix() + max_secs);
+    let seg_len = {
+        let mut r = crate::rng::Rng::new(crate::rng::mix(seed ^ 0x5E6_5E6, start.wrapping_mul(1_000_003).wrapping_add(seg)));
+        [1u64, 2, 4, 10, 30, 100, 300][r.weighted(&[30, 20, 15, 10, 10, 10, 5])]
+    };
+    let this_count = if std::env::var_os("FQSIM_NO_SEGMENTS").is_some() { count } else { count.min(seg_len) };
     let mut ws = WorkerStats::default();
     let mut found: BTreeMap<String, u32> = BTreeMap::new();
     use std::io::Write;
     let out = std::io::stdout();
     let mut out = out; // not locked: simulated callers may print to stdout themselves (`QRCode::print`)
-    for j in 0..count {
-        if j % 32 == 0 && t0.elapsed().as_secs() >= max_secs {
+    let mut done = 0u64;
+    for j in 0..this_count {
+        if j % 32 == 0 && now_unix() >= deadline {
             ws.stopped_by_time_cap = true;
             break;
         }
@@ -124,16 +141,44 @@ pub fn worker_main(args: &[String]) -> i32 {
             idx, r.trace_hash, r.outcome_hash, nontrivial
         );
         ws.add(&ep, &r);
+        done += 1;
         if let Some(v) = &r.violation {
             let n = found.entry(v.class()).or_insert(0);
             if *n < 3 {
                 let variant = if cfg!(feature = "facade") { "facade" } else { "plain" };
+                // worker_start = first episode of this process image: the prefix a replay may need
                 let _ = writeln!(out, "{}", json!({"found": {"violation": v, "episode": ep, "worker_start": start, "worker_stride": stride, "variant": variant}}));
             }
             *n += 1;
         }
     }
+    ws.process_starts += 1;
     let _ = writeln!(out, "{}", json!({"stats": ws}));
+    let _ = out.flush();
+    let left = count - done.min(count);
+    if left > 0 && !ws.stopped_by_time_cap && done == this_count {
+        // next segment: replace this process image
+        use std::os::unix::process::CommandExt;
+        let exe = match std::env::current_exe() {
+            Ok(e) => e,
+            Err(_) => return 2,
+        };
+        let mut cmd = std::process::Command::new(exe);
+        cmd.arg("c14-worker")
+            .args(["--seed", &seed.to_string()])
+            .args(["--start", &(start + done * stride).to_string()])
+            .args(["--stride", &stride.to_string()])
+            .args(["--count", &left.to_string()])
+            .args(["--max-secs", &max_secs.to_string()])
+            .args(["--seg", &(seg + 1).to_string()])
+            .args(["--deadline", &deadline.to_string()]);
+        if let Some(p) = arg_value(args, "--pristine") {
+            cmd.args(["--pristine", p]);
+        }
+        let e = cmd.exec();
+        eprintln!("harness error: re-exec of the worker failed: {}", e);
+        return 2;
+    }
     0
 }
 
@@ -601,6 +646,7 @@ pub fn check_main(tier: Tier) -> i32 {
         "combined_run_hash": format!("{:016x}", combined),
         "miri_leg": miri,
         "stopped_by_time_cap": ws.stopped_by_time_cap,
+        "process_images": {"cold_starts": ws.process_starts, "note": "each worker re-executes itself between segments of 1..300 episodes, so per-process state of the tree under test starts cold that many times"},
         "harness_variants": variants.iter().map(|(n, _)| n.clone()).collect::<Vec<_>>(),
         "hung_episodes_skipped": hung_episodes,
         "sync_facade": {"sync_points": ws.sched.sync_points, "blocked_yields": ws.sched.blocked_yields, "note": "the facade variant is fast_qr compiled against /verif/facade (std/core re-exported, sync primitives and atomics are scheduling points); on a tree without shared state both counters are 0"},
